@@ -182,4 +182,102 @@ theorem dq_idx_unique {s : State} (h : Inv s) {a b : DqAtt} (ha : a ∈ s.dq) (h
   have hn : (s.dq.map (·.idx)).Nodup := h.dq ▸ h.idxNodup
   exact eq_of_nodup_map (·.idx) hn ha hb hab
 
+
+/-! ## no report is made twice -/
+
+theorem nodup_flatMap_of {α β : Type} {l : List α} {f : α → List β} (h1 : ∀ x ∈ l, (f x).Nodup) (h2 : l.Nodup)
+    (h3 : ∀ x ∈ l, ∀ y ∈ l, ∀ b, b ∈ f x → b ∈ f y → x = y) : (l.flatMap f).Nodup := by
+  induction l with
+  | nil => simp
+  | cons x l ih =>
+    simp only [List.flatMap_cons]
+    simp only [List.nodup_cons] at h2
+    apply List.nodup_append.mpr
+    refine ⟨h1 x (by simp), ?_, ?_⟩
+    · exact ih (fun y hy => h1 y (List.mem_cons_of_mem _ hy)) h2.2
+        (fun a ha b hb => h3 a (List.mem_cons_of_mem _ ha) b (List.mem_cons_of_mem _ hb))
+    · intro a ha b hb hab
+      obtain ⟨y, hy, hby⟩ := List.mem_flatMap.mp hb
+      have := h3 x (by simp) y (List.mem_cons_of_mem _ hy) a ha (hab ▸ hby)
+      exact h2.1 (this ▸ hy)
+
+theorem nodup_map_of_injOn {α β : Type} {l : List α} {f : α → β} (h : l.Nodup)
+    (hinj : ∀ a ∈ l, ∀ b ∈ l, f a = f b → a = b) : (l.map f).Nodup := by
+  induction l with
+  | nil => simp
+  | cons x l ih =>
+    simp only [List.nodup_cons] at h
+    simp only [List.map_cons, List.nodup_cons]
+    constructor
+    · intro hm
+      obtain ⟨y, hy, hxy⟩ := List.mem_map.mp hm
+      have := hinj y (List.mem_cons_of_mem _ hy) x (by simp) hxy
+      exact h.1 (this ▸ hy)
+    · exact ih h.2 (fun a ha b hb => hinj a (List.mem_cons_of_mem _ ha) b (List.mem_cons_of_mem _ hb))
+
+theorem nodup_of_nodup_map {α β : Type} {l : List α} (f : α → β) (h : (l.map f).Nodup) : l.Nodup := by
+  induction l with
+  | nil => simp
+  | cons x l ih =>
+    simp only [List.map_cons, List.nodup_cons] at h
+    simp only [List.nodup_cons]
+    exact ⟨fun hx => h.1 (List.mem_map.mpr ⟨x, hx, rfl⟩), ih h.2⟩
+
+/-- a guard and a kind determine the callback id -/
+theorem matchGuard_inj {id1 id2 : AttId} {gd : Guard} {k : Kind} (h1 : matchGuard id1 gd = some k)
+    (h2 : matchGuard id2 gd = some k) : id1 = id2 := by
+  cases id1 <;> cases id2 <;> cases gd <;> simp [matchGuard] at h1 h2 ⊢ <;>
+    (try (split at h1 <;> split at h2 <;> simp_all)) <;> (try omega) <;>
+    (try (obtain ⟨_, hk1⟩ := h1; obtain ⟨_, hk2⟩ := h2; rw [← hk1] at hk2; cases hk2))
+
+theorem matchAll_nodup {gs : List (Nat × Guard)} (hl : (gs.map Prod.fst).Nodup) (id : AttId) :
+    (matchAll gs id).Nodup := by
+  unfold matchAll
+  induction gs with
+  | nil => simp
+  | cons e gs ih =>
+    simp only [List.map_cons, List.nodup_cons] at hl
+    simp only [List.filterMap_cons]
+    cases hk : (matchGuard id e.2).map (fun k => (e.1, k)) with
+    | none => simp only; exact ih hl.2
+    | some x =>
+      simp only [List.nodup_cons]
+      refine ⟨?_, ih hl.2⟩
+      intro hm
+      obtain ⟨e', he', hx⟩ := List.mem_filterMap.mp hm
+      have hx1 : x.1 = e.1 := by
+        cases hmg : matchGuard id e.2 with
+        | none => simp [hmg] at hk
+        | some k => simp [hmg] at hk; rw [← hk]
+      have hx2 : x.1 = e'.1 := by
+        cases hmg : matchGuard id e'.2 with
+        | none => simp [hmg] at hx
+        | some k => simp [hmg] at hx; rw [← hx]
+      exact hl.1 (List.mem_map.mpr ⟨e', he', by rw [← hx2, hx1]⟩)
+
+theorem callbackIds_nodup {s : State} (h : Inv s) : (callbackIds s).Nodup := by
+  unfold callbackIds
+  have hdq : (dqAfterReset s).Nodup := by
+    apply nodup_of_nodup_map (·.idx)
+    rw [dqAfterReset_idx, h.dq]; exact h.idxNodup
+  have hidx : ((dqAfterReset s).map (·.idx)).Nodup := by
+    rw [dqAfterReset_idx, h.dq]; exact h.idxNodup
+  apply List.nodup_append.mpr
+  refine ⟨?_, ?_, ?_⟩
+  · apply nodup_map_of_injOn (List.Nodup.sublist List.filter_sublist hdq)
+    intro a ha b hb hab
+    have ha' := (List.mem_filter.mp ha).1
+    have hb' := (List.mem_filter.mp hb).1
+    apply eq_of_nodup_map (·.idx) hidx ha' hb'
+    split at hab <;> split at hab <;> simp_all
+  · apply nodup_map_of_injOn
+    · unfold triggered
+      exact List.Nodup.sublist List.filter_sublist (h.reactor ▸ h.fdsNodup)
+    · intro a _ b _ hab; cases hab; rfl
+  · intro a ha b hb hab
+    obtain ⟨x, _, hx⟩ := List.mem_map.mp ha
+    obtain ⟨y, _, hy⟩ := List.mem_map.mp hb
+    rw [← hx, ← hy] at hab
+    split at hab <;> cases hab
+
 end Iox2.WaitSet
